@@ -16,7 +16,16 @@ search) must equal a fresh object's single call with the same effective hyper-pa
 hyper-parameters must be the requested ones (exact stream vs the model state machine + independent tracker), and the
 parallax closed form is evaluated with the REQUESTED aberrations and rotation.  Input representations: every input
 (stack, construction mask, sub-mask, samplings, energy, rotation, coefficients, aperture, upsampling, batch size, ...)
-is redrawn over container x dtype x memory layout with unchanged logical value and must give the canonical-form result."""
+is redrawn over container x dtype x memory layout with unchanged logical value and must give the canonical-form result.
+
+Growth round 5: `pregenerate()` re-translates the kernel formulas from the source (harness/translator/dpkernel2lean.py ->
+Generated/DirectKernel.lean; Model/DirectKernel.lean maps them over mask pixels and the scan grid).  Streams `kernel-full`
+(probe, aperture weights, envelope, parallax gradient / sign, per-pixel kernel factor and power: translated formula vs real
+code) and `reconstruct-full` (the WHOLE reconstruction from stack + mask pixels + hyper-parameters, no captured factor).
+Histories contain REJECTED / RAISING calls (bad arguments; faults injected into `_return_kernel_contributions` / `ifft2`
+part-way; RuntimeError, MemoryError, KeyboardInterrupt) which the caller catches before carrying on, masks are handed over
+through one buffer object rewritten in place (torch or NumPy), overrides through one dict object, complementary sub-masks and
+repeated fixed-value grid searches occur inside one history; recombination streams both parts through one buffer."""
 import math
 
 import numpy as np
@@ -24,24 +33,36 @@ import numpy as np
 LEVEL = "proof"
 MANIFEST_ENTRY = {
     "category": "proof",
-    "text": "Lean 4 theorems over an executable model of DirectPtychography.reconstruct's streaming skeleton "
-            "(per-pixel Fourier factors as parameters; _preprocess, Fourier tiling, batched first pass, power accumulation, "
-            "obf/mf normalisation, second pass, real/W, sum): batch_invariant / batch_size_invariant (any partition of the BF "
-            "pixels into batches, any order, all five kernels, both passes; over any carrier whose + is a commutative monoid), "
-            "linear_in_stack (+ linear_in_stack_dft: unconditional for the defining DFT sums), submask_recombine (single-pass "
-            "kernels, aperture weights), mapping_correct / mapping_in_range (sub-mask -> stack rows), alias table total and "
-            "unknown names rejected, prlx_operator_is_translation (exp(-i grad.q) is the Fourier translation by grad/2pi) and "
-            "the two parallax limits per pixel given the DFT identities. Tied to the code on every run by a Float "
-            "correspondence (factors captured from single-pixel calls of the real kernel method made by the real reconstruct; "
-            "real reconstruct(max_batch_size=b) for EVERY b in 1..num_bf vs the driver) and by the property predicates "
-            "(batch invariance, linearity, recombination, parallax limits vs a NumPy roll oracle and the driver's closed "
-            "form, aliases, determinism) evaluated on the real code.",
-    "note": "Partial: the ssb/obf/mf kernel formula (gamma_factor, aperture) is a parameter, not re-derived; the parallax limits "
-            "are proved per pixel under two DFT identities taken as hypotheses on the FFT pair (DC bin = N*mean and tiled "
-            "spectrum = zero-interleaved image; ifft2 after fft2 = id) - the full closed forms are measured against the real "
-            "code on every run; float32 summation order is measured (batch-invariance tolerance 1e-5 relative, times the "
-            "parallax phase conditioning), not proved.",
-    "technique": "Lean 4 proof (induction over batch lists / permutations, pointwise linear algebra on lists over R) + "
+    "text": "Lean 4 theorems over an executable model of DirectPtychography.reconstruct: the streaming skeleton "
+            "(_preprocess, Fourier tiling, batched first pass, power accumulation, obf/mf normalisation, second pass, real/W, sum) "
+            "AND the kernel formulas, which are re-translated from the current source on every run "
+            "(harness/translator/dpkernel2lean.py -> Generated/DirectKernel.lean: aperture, aberration surface and gradients, "
+            "evaluate_probe, gamma_factor, polar coordinates, passive rotation, the five branches of _return_kernel_contributions, "
+            "Butterworth envelope, parallax gradient / sign, aperture weight, obf / mf normalisation of reconstruct). Proved: "
+            "batch_invariant / batch_size_invariant (any partition of the BF pixels, any order, all five kernels, both passes; any "
+            "carrier whose + is a commutative monoid) and batch_invariant_full for the whole model incl. the formulas; linear_in_stack "
+            "(+ _dft, _full); submask_recombine; mapping_correct / mapping_in_range; alias table; generated = spec for probe, gamma "
+            "factor and the five kernel branches; kernel_linear_in_spectrum (every kernel = spectrum x factor on a unit spectrum); "
+            "|gamma|^2 power >= 0; normalisation >= 1e-8 > 0 and = the skeleton's normOf; Butterworth with None / 0 cut-offs = 1; "
+            "aperture weight = aperture^2 in [0,1], independent of the aberrations; parallax_gradient_eq_shift (grad_k of the "
+            "translated source = 2 pi x the geometric shift, for every pixel / rotation / first-order coefficient set; 0 without "
+            "coefficients); prlx_operator_is_translation; the two parallax limits per pixel for the whole model "
+            "(parallax_shift_full_partial / parallax_zero_full_partial) given two DFT identities; HyperparameterState history "
+            "theorems. Tied to the code on every run by the translator, by Float correspondence (captured factors AND the whole "
+            "reconstruction from stack + mask + hyper-parameters alone, real reconstruct(max_batch_size=b) for EVERY b) and by the "
+            "property predicates evaluated on the real code, incl. call histories with REJECTED / RAISING calls (bad arguments, "
+            "faults injected into callees part-way) and argument objects reused and rewritten in place.",
+    "note": "Partial: the parallax limits are proved per pixel under two DFT identities taken as hypotheses on the FFT pair (DC bin = "
+            "N*mean and tiled spectrum = zero-interleaved image; ifft2 after fft2 = id) - the full closed forms are measured against "
+            "the real code on every run; sub-mask recombination is proved for the skeleton (factors of a pixel = function of the "
+            "pixel, which the whole model has by construction) but not restated for reconstructFull; float32 evaluation of the "
+            "formulas (hard aperture edge, sign(sin chi) near zeros, gamma/|gamma| for tiny gamma) is measured with those grid "
+            "points masked and counted; float32 summation order is measured (batch-invariance tolerance 1e-5 relative, times the "
+            "parallax phase conditioning), not proved. The property does not state the kernel formulas: a changed formula that keeps "
+            "batch invariance / linearity / recombination / the parallax limits is reported as a broken tie (translator theorem or "
+            "correspondence), not as a failing input.",
+    "technique": "Lean 4 proof (induction over batch lists / permutations, pointwise linear algebra on lists over R, ring / "
+                 "linear_combination on the translated formulas) + source-to-Lean translation on every run + "
                  "model-vs-implementation correspondence",
 }
 RULE = ("one case = one synthetic problem (detector grid, construction mask, sub-mask, scan shape, sampling, energy, aperture, "
@@ -49,17 +70,30 @@ RULE = ("one case = one synthetic problem (detector grid, construction mask, sub
         "distinct (kernel, upsampling, num_bf, scan shape parity/squareness, sub-mask?, aberration kind, rotation?, filters?, crop?) "
         "with num_bf >= 2")
 TRUSTED = ["torch.fft.fft2/ifft2 compute the defining DFT sums (the model's executable Fourier instance, proved linear); measured by every Float stream",
-           "ssb/obf/mf kernel factors (gamma_factor, aperture, evaluate_probe) are captured from the real code, not modelled",
-           "the Butterworth envelope is recomputed from its formula in float64 by the harness (independent of reconstruct's local variable)",
+           "the translator harness/translator/dpkernel2lean.py (element-wise reading of broadcasting / indexing plumbing: kxa[ind_i, ind_j], "
+           "x[bf_mask], .view/.unsqueeze, .sum(0) over the batch, .sum() over the mask, x[0,0]=c, power.max()); cross-checked on every run by "
+           "the kernel-full and reconstruct-full Float streams on the very functions it translates",
+           "spatial_frequencies (torch.fft.fftfreq + broadcast) is modelled by hand (kPoint / qGrid), compared with the grids the real code builds",
+           "the Butterworth envelope of the real call is not observable on its own: the model's (translated) envelope is compared with the "
+           "harness's float64 formula and through the end-to-end reconstruction",
            "Python str.lower() vs ASCII lowering in the model: no alias contains a letter that a non-ASCII character lowers to"]
 ASSUMPTIONS = ["sub-masks are subsets of the construction mask (the property's quantifier); batch indices are in range",
                "for upsampling u>1 the parallax closed form places the scan images on every u-th point of the finer grid "
                "(what Fourier tiling means in real space); for u=1 it is literally the statement",
                "crop_bf_mask=True is exercised with symmetric and asymmetric masks and paddings 0..2 (sub-masks are given on the cropped "
                "grid); a dedicated parallax stream targets masks with one extra pixel on either side of the origin",
-               "float tolerance: |impl-model| <= 5e-5*max(max|model|, 0.05*natural magnitude, natural = max|v-mean|/W) (float32/complex64 path; stricter than the DESIGN rule 5e-4), batch invariance 1e-5, each times the parallax phase conditioning max(1,|phase|/4)"]
-EXPLANATION = ("Theorems in Props/C04.lean are about Model/DirectPtycho.lean; every run captures the per-pixel factors from the real "
-               "kernel method, runs the Lean driver on them and compares with the real reconstruct for every batch size.")
+               "float tolerance: |impl-model| <= 5e-5*max(max|model|, 0.05*natural magnitude, natural = max|v-mean|/W) (float32/complex64 path; stricter than the DESIGN rule 5e-4), batch invariance 1e-5, each times the parallax phase conditioning max(1,|phase|/4)",
+               "butterworth_order is a natural number (the model's exponent type); vacuum_probe_intensity is None on every path reconstruct takes",
+               "grid points where float32 cannot decide the formula are excluded from the formula comparison and counted in the evidence: "
+               "|alpha(q-+k) - cutoff| < 1e-5 cutoff (hard aperture), |sin chi_q| < 2e-5 (1+|chi_q|) (sign flip), 0 < |gamma| < 1e-4 and the DC "
+               "bin (ssb: gamma/|gamma|; the DC bin multiplies the zeroed DC of the spectrum); the end-to-end comparison is skipped for a "
+               "problem that has such a point",
+               "a call that raises inside a history is caught by the caller (the harness); nothing is asserted about WHICH calls raise, "
+               "only that the stored hyper-parameters are unchanged and that every later valid call equals a fresh object's"]
+EXPLANATION = ("Theorems in Props/C04.lean are about Model/DirectPtycho.lean + Model/DirectKernel.lean over Generated/DirectKernel.lean, "
+               "which pregenerate() rebuilds from the source on every run; every run also captures the per-pixel factors from the real "
+               "kernel method, compares them with the translated formulas, runs the Lean driver on captured factors and from the "
+               "hyper-parameters alone, and compares with the real reconstruct for every batch size.")
 
 
 
@@ -164,13 +198,18 @@ def _gen_case_once(rng, idx):
         rad2 = rng.choice([1, 2])
         pix = sorted((i, j) for i, j, d in cand if d <= rad2)
     else:                             # arbitrary (in general asymmetric) mask
-        nmask = min(rng.randint(3, 12), len(cand))
+        nmask = min(rng.randint(3, 12) if not rng.chance(0.12) else rng.randint(1, 2), len(cand))   # incl. one- and two-pixel masks
         chosen = rng.sample(cand, nmask)
         if not any(d <= 2 for _, _, d in chosen):      # at least one pixel well inside the aperture (W > 0)
             chosen[0] = rng.choice([x for x in cand if x[2] <= 2])
         pix = sorted(set((i, j) for i, j, _ in chosen))
     n = len(pix)
     r, c = rng.randint(4, 9), rng.randint(4, 9)
+    if rng.chance(0.15):        # degenerate scan axes: length 1, 2, 3
+        if rng.chance(0.5):
+            r = rng.randint(1, 3)
+        else:
+            c = rng.randint(1, 3)
     sx = rng.choice([0.5, 0.6, 0.7, 0.8, 1.0])
     sy = sx if rng.chance(0.5) else rng.choice([0.5, 0.6, 0.7, 0.8, 1.0])
     rs = rng.choice([0.15, 0.19, 0.22])
@@ -198,6 +237,10 @@ def _gen_case_once(rng, idx):
     qmax = 0.5 / max(sx, sy)
     ql = rng.uniform(0.4, 1.2) * qmax if rng.chance(0.3) else None
     qh = rng.uniform(0.05, 0.3) * qmax if rng.chance(0.3) else None
+    if ql is None and rng.chance(0.12):      # a cutoff of exactly 0 is falsy: `if q_lowpass:` skips the filter
+        ql = rng.choice([0, 0.0])
+    if qh is None and rng.chance(0.12):
+        qh = rng.choice([0, 0.0])
     order = rng.choice([2, 4, 12])
     sub = None
     if n >= 3 and rng.chance(0.55):
@@ -378,6 +421,10 @@ def run_problem(ctx, drv, case):
     ctx.dist["submask:" + ("full" if case["sub"] is None else "proper")] += 1
     ctx.dist["filters:" + ("+".join(x for x, v in (("low", case["ql"]), ("high", case["qh"])) if v) or "none")] += 1
     ctx.dist["crop:" + str(case["crop"])] += 1
+    if min(r, c) <= 3:
+        ctx.dist[f"scan:axis-of-length-{min(r, c)}"] += 1
+    if case["ql"] is not None and not case["ql"] or case["qh"] is not None and not case["qh"]:
+        ctx.dist["filters:cutoff-exactly-zero"] += 1
     ctx.dist["generator:rejected-zero-weight-or-aperture-edge"] += case.get("rejected_before", 0)
     ctx.dist["detector-units:" + case["units"]] += 1
     ctx.dist["aperture:" + ("soft" if case["soft"] else "hard")] += 1
@@ -592,7 +639,7 @@ def run_problem(ctx, drv, case):
 
     # ---- the kernel formulas inside the model (translated from the source) -----------------
     run_kernel_full(ctx, drv, case, dp, {"K": K, "P": P, "W": W, "env": env, "bfc": bfc, "qxa": qxa, "qya": qya, "probe": probe,
-                                         "grad_k": grad_k, "sign_q": sign_q, "kxa": kxa, "kya": kya},
+                                         "grad_k": grad_k, "sign_q": sign_q, "kxa": kxa, "kya": kya, "calls": calls, "orig": orig},
                     impl, sub, floor, cond, impl_ctx["map"], stack)
 
     # ---- linearity in the stack ---------------------------------------------------------
@@ -630,8 +677,16 @@ def run_problem(ctx, drv, case):
         if min(WA, WB) <= 1e-3 * WS:
             ctx.dist["recombination:skipped-zero-weight-part"] += 1   # a part entirely outside the aperture: bf_A = 0/0
         else:
-            bA = recon(dp, case, bf_mask=submask_array(dp, A), b=bA_).reshape(len(A), -1).sum(axis=0)
-            bB = recon(dp, case, bf_mask=submask_array(dp, B), b=bB_).reshape(len(B), -1).sum(axis=0)
+            # the two complementary masks are streamed through ONE pre-allocated buffer, rewritten in place
+            mbuf = torch.zeros_like(dp.bf_mask)
+
+            def fill(rows_):
+                mbuf.zero_()
+                for s_ in rows_:
+                    mbuf[ii[s_], jj[s_]] = True
+                return mbuf
+            bA = recon(dp, case, bf_mask=fill(A), b=bA_).reshape(len(A), -1).sum(axis=0)
+            bB = recon(dp, case, bf_mask=fill(B), b=bB_).reshape(len(B), -1).sum(axis=0)
             bS = ref.sum(axis=0)
             lhs, rhs = WA * bA + WB * bB, WS * bS
             sc = max(maxabs(rhs), maxabs(WA * bA), maxabs(WB * bB), WS * floor, 1e-30)
@@ -735,13 +790,34 @@ def run_kernel_full(ctx, drv, case, dp, cap, impl, sub, floor, cond, mapping, st
                 ctx.dist["kernel-full:points-on-hard-aperture-edge"] += int(sk.sum())
             if kernel == "ssb":
                 sk[0] = True       # the DC bin of the factor multiplies the zeroed DC bin of the spectrum; gamma(0) is pure cancellation noise
-                small = (gam[t] > 0) & (gam[t] < 1e-4)
+                # |gamma| of the REAL code at this pixel (the obf branch of the same method returns |gamma|^2): where gamma vanishes
+                # by symmetry (q perpendicular to k, equal apertures) float32 leaves rounding noise, which gamma/|gamma| turns
+                # into a unit-modulus number; such points are compared through |gamma| only
+                a_ = list(cap["calls"][t][0])
+                a_[1], a_[2] = "obf", torch.ones_like(a_[2])
+                gimpl = np.sqrt(cap["orig"](*a_)[1].detach().double().numpy().ravel())
+                err_g = float(np.abs(gimpl - gam[t]).max())
+                ctx.stat_max("kernel_full_abs_gamma_abs", err_g)
+                if not err_g <= 4 * TOL_K * cond:
+                    ctx.disagree("kernel-full", dict(tag, item=t), summarize(gam[t]), summarize(gimpl),
+                                 note=f"|gamma| of BF pixel {t}: abs diff {err_g:.3g}")
+                    ok = False
+                small = gam[t] < 1e-4
                 small[0] = False
-                ctx.dist["kernel-full:ssb-points-with-tiny-gamma"] += int(small.sum())
-                sk |= small
+                noisy = small & ((gam[t] > 0) | (gimpl > 0))
+                ctx.dist["kernel-full:ssb-points-with-tiny-gamma"] += int(noisy.sum())
+                sk |= noisy         # gamma exactly 0 on both sides stays compared (factor exactly 0)
+                if noisy.any():
+                    ill = True
             per_pix_skip.append(sk)
-            if sk[1:].any():
+            if kernel != "ssb" and sk[1:].any():
                 ill = True
+            if kernel == "ssb" and not case["soft"]:
+                edge = np.zeros(N * M, dtype=bool)
+                for sgn in (-1.0, 1.0):
+                    edge |= np.abs(np.hypot(qx64 + sgn * kxm[t], qy64 + sgn * kym[t]) * lam - sa) < 1e-5 * sa
+                if edge[1:].any():
+                    ill = True
     for t in range(n):
         mk = cx(o["K"][t])
         sk = per_pix_skip[t] if per_pix_skip else skip
@@ -946,7 +1022,7 @@ def run_crop_case(ctx, cc):
 
 
 def run_crop_cases(ctx, rng):
-    for _ in range(ctx.n(4, 24)):
+    for _ in range(ctx.n(8, 24)):
         gr, gc = rng.randint(7, 8), rng.randint(7, 8)
         rad2 = rng.choice([1, 2])
         pix = [(i, j) for i in range(gr) for j in range(gc) if signed(gr, i) ** 2 + signed(gc, j) ** 2 <= rad2]
@@ -1021,21 +1097,33 @@ def gen_history(rng, idx):
     rand_for = {"C10": r10, "defocus": r10, "C12": r12, "astigmatism": r12, "phi12": rphi, "astigmatism_angle": rphi,
                 "C21": r21, "coma": r21, "phi21": rphi, "coma_angle": rphi, "C30": lambda: f32(r10() / (amax * amax))}
     steps = [{"kind": "call", "ab": None, "rot": None}]                 # the plain call
-    for _ in range(rng.randint(2, 4)):
+    # configure / run / RECONFIGURE / run again: some generic histories hold two fixed-value grid searches whose
+    # coefficient sets differ (the second must not inherit anything from the first)
+    regrid = kind == "generic" and rng.chance(0.5)
+    nmid = rng.randint(3, 4) if regrid else rng.randint(2, 4)
+    grid_at = set(rng.sample(list(range(nmid)), 2)) if regrid else set()
+    grid_keys_used = set()
+    for mid in range(nmid):
         st = {"kind": "call", "ab": None, "rot": None}
         if kind == "rotation-sweep":
             st["rot"] = draw_value(rng, case["rot"], rrot)
             if rng.chance(0.3):
                 st["ab"] = [[k, v] for k, v in case["ab"].items()]        # the same set, given again
         else:
-            if kind == "generic" and rng.chance(0.25):
+            if kind == "generic" and (rng.chance(0.25) or mid in grid_at):
                 st["kind"] = "grid"
             if rng.chance(0.7):
                 st["rot"] = draw_value(rng, case["rot"], rrot)
             if rng.chance(0.75) or st["kind"] == "grid":
                 pool = (["C10", "defocus", "C12", "phi12", "astigmatism", "astigmatism_angle"] if kind == "prlx-closed" else
                         ["C10", "defocus", "C12", "phi12", "astigmatism", "astigmatism_angle", "C21", "phi21", "coma", "coma_angle", "C30"])
-                keys = rng.sample(pool, rng.randint(1, 3))
+                if st["kind"] == "grid" and regrid:
+                    canon_of = lambda k_: CANON.get(k_, (k_, 1))[0]  # noqa
+                    fresh_pool = [k_ for k_ in pool if canon_of(k_) not in grid_keys_used] or pool
+                    keys = rng.sample(fresh_pool, min(len(fresh_pool), rng.randint(1, 2)))
+                    grid_keys_used |= {canon_of(k_) for k_ in keys}
+                else:
+                    keys = rng.sample(pool, rng.randint(1, 3))
                 st["ab"] = [[k, draw_value(rng, (stored.get(CANON.get(k, (k, 1))[0]) if k not in CANON else
                                                   (-stored["C10"] if k == "defocus" and "C10" in stored else stored.get(CANON[k][0]))),
                                            rand_for[k])] for k in keys]
@@ -1056,7 +1144,38 @@ def gen_history(rng, idx):
         steps.append(st)
     steps.append({"kind": "call", "ab": None, "rot": None})                # the plain call again
     steps[0]["b"] = steps[-1]["b"] = rng.randint(1, n)
-    return {"history": {"kind": kind, "steps": steps}, **case}
+    # the complementary sub-mask (the other pixels of the construction mask), if it carries aperture weight
+    comp = None
+    if case["sub"] is not None:
+        rest = [t for t in range(n_full) if t not in case["sub"]]
+        if rest:
+            wts, margin = aperture_weights(case, case["det"], [case["pix"][t] for t in rest])
+            if sum(wts) >= 0.5 and margin >= 1e-3:
+                comp = rest
+    # masks are handed over through ONE buffer object per history whose contents are rewritten in place between calls
+    # (and per-call coefficient overrides through one dict object); some steps use the complementary sub-mask
+    for st in steps[1:-1]:
+        if comp is not None and not st.get("full_mask") and rng.chance(0.45):
+            st["mask"] = "complement"
+            st["b"] = rng.randint(1, len(comp))
+        elif st.get("full_mask") and rng.chance(0.5):
+            st["via_buffer"] = True
+    # exception safety: calls that are REJECTED or RAISE PART-WAY (bad argument, failing validation, an exception from a
+    # callee), placed in front of a valid call whose settings they copy; the caller catches the exception and carries on
+    out = [steps[0]]
+    for st in steps[1:]:
+        if rng.chance(0.5):
+            kern = None
+            for kk, al in ALIASES.items():
+                if st.get("alias", case["alias"]).lower() in al:
+                    kern = kk
+            late = ["kernel-call-fault", "ifft-fault", "mask-not-sub"] + (["eps-none"] * 2 if kern == "mf" else [])
+            early = ["unknown-kernel", "bad-ab-key", "mask-shape", "batch-zero"]
+            fault = rng.choice(late * 2 + early)
+            out.append({"kind": "bad", "fault": fault, "like": dict(st), "ab": st["ab"], "rot": st["rot"], "k": rng.below(1 << 16),
+                        "exc": rng.choice(["RuntimeError", "MemoryError", "KeyboardInterrupt"])})
+        out.append(st)
+    return {"history": {"kind": kind, "steps": out, "buffer": rng.choice(["torch", "numpy", "torch"]), "comp": comp}, **case}
 
 
 def run_history(ctx, drv, hc):
@@ -1078,16 +1197,42 @@ def run_history(ctx, drv, hc):
     bits = lambda d: [[k, fl([v])[0]] for k, v in d.items()]  # noqa
     fb = lambda x: None if x is None else fl([float(x)])[0]  # noqa
     model = drv.ask({"op": "history", "initial_ab": bits(case["ab"]), "initial_rot": fb(case["rot"]),
-                     "steps": [{"kind": st["kind"], "ab": None if st["ab"] is None else [[k, fl([v])[0]] for k, v in st["ab"]],
+                     "steps": [{"kind": "call" if st["kind"] == "bad" else st["kind"],
+                                "ab": None if st["ab"] is None else [[k, fl([v])[0]] for k, v in st["ab"]],
                                 "rot": fb(st["rot"])} for st in h["steps"]]})
     if "ok" not in model:
         raise RuntimeError(f"driver: {model}")
     ctx.dist[f"history:{h['kind']}-{case['kernel']}"] += 1
+    # ONE mask buffer and ONE override dict per history: their contents are rewritten in place before every call
+    buf = torch.zeros_like(dp.bf_mask) if h.get("buffer", "torch") == "torch" else np.zeros(gpts, dtype=bool)
+    odict = {}
+
+    def settings(st_):
+        variant = st_.get("mask") or ("full" if st_.get("full_mask") else "sub")
+        rows_ = {"full": list(range(n_full)), "sub": sub, "complement": h.get("comp") or sub}[variant]
+        if (variant == "full" and not st_.get("via_buffer")) or (variant == "sub" and case["sub"] is None):
+            mask_ = None
+        else:
+            if isinstance(buf, np.ndarray):
+                buf[...] = False
+            else:
+                buf.zero_()
+            for s_ in rows_:
+                buf[int(ii[s_]), int(jj[s_])] = True
+            mask_ = buf
+        sc_ = dict(case, u=st_.get("u", case["u"]), ql=st_.get("ql", case["ql"]), flip=st_.get("flip", case["flip"]),
+                   eps=st_.get("eps", case["eps"]), alias=st_.get("alias", case["alias"]))
+        return rows_, mask_, sc_
+
+    def fresh_mask(fresh_, rows_, mask_):
+        return None if mask_ is None else submask_array(fresh_, rows_)
+
+    prev_state = None
     for t, st in enumerate(h["steps"]):
-        rows = list(range(n_full)) if st.get("full_mask") else sub
-        mask = None if (st.get("full_mask") or case["sub"] is None) else submask_array(dp, sub)
-        sc = dict(case, u=st.get("u", case["u"]), ql=st.get("ql", case["ql"]), flip=st.get("flip", case["flip"]),
-                  eps=st.get("eps", case["eps"]), alias=st.get("alias", case["alias"]))
+        if st["kind"] == "bad":
+            run_bad_step(ctx, hc, t, st, dp, settings, odict, model["ok"][t], bits, fb, gpts)
+            continue
+        rows, mask, sc = settings(st)
         # requested (effective) hyper-parameters of this step
         stored_ab = dict(initial_ab)
         stored_ab.update(opt_ab)
@@ -1113,10 +1258,15 @@ def run_history(ctx, drv, hc):
             got = dp.corrected_stack.detach().double().numpy().copy().reshape(len(rows), -1)
             real_eff = {"ab": bits(state.current_aberrations(None)), "rot": fb(state.current_rotation_angle(None))}
         else:
-            over_ab = None if st["ab"] is None else {k: v for k, v in st["ab"]}
+            over_ab = None
+            if st["ab"] is not None:
+                odict.clear()
+                odict.update({k: v for k, v in st["ab"]})
+                over_ab = odict
             real_eff = {"ab": bits(state.current_aberrations(over_ab)), "rot": fb(state.current_rotation_angle(st["rot"]))}
             got = recon(dp, sc, bf_mask=mask, b=st["b"], override_aberration_coefs=over_ab,
                         override_rotation_angle=st["rot"]).reshape(len(rows), -1)
+            ctx.dist["history-step:mask-" + ("none" if mask is None else f"reused-{h.get('buffer', 'torch')}-buffer:" + (st.get("mask") or "sub/full"))] += 1
         real_state = {"initial_ab": bits(state.initial_aberrations), "optimized_ab": bits(state.optimized_aberrations),
                       "initial_rot": fb(state.initial_rotation_angle), "optimized_rot": fb(state.optimized_rotation_angle)}
         ctx.count()
@@ -1142,7 +1292,7 @@ def run_history(ctx, drv, hc):
         # (3) predicate: equal to a single call on a fresh object with the same effective hyper-parameters
         fc = dict(sc, ab=eff_ab, rot=eff_rot)
         fresh = make_dp(fc, stack)
-        fmask = None if (st.get("full_mask") or case["sub"] is None) else submask_array(fresh, sub)
+        fmask = fresh_mask(fresh, rows, mask)
         want = recon(fresh, fc, bf_mask=fmask, b=st["b"]).reshape(len(rows), -1)
         pix = [(int(ii[s_]), int(jj[s_])) for s_ in rows]
         wts, _ = aperture_weights(fc, gpts, pix)
@@ -1185,8 +1335,94 @@ def run_history(ctx, drv, hc):
                 break
 
 
+class InjectedInterrupt(KeyboardInterrupt):
+    pass
+
+
+def run_bad_step(ctx, hc, t, st, dp, settings, odict, m, bits, fb, gpts):
+    """a call that is rejected or raises part-way; the harness (the caller) catches the exception and carries on.  The stored
+    hyper-parameters must be what they were (exact stream vs the model, where a call never changes the state); every
+    LATER valid call of the history is compared with a fresh object as usual"""
+    import torch
+    state = dp.hyperparameter_state
+    rows, mask, sc = settings(st["like"])
+    fault = st["fault"]
+    over_ab = None
+    if st["like"]["ab"] is not None or fault == "bad-ab-key":
+        odict.clear()
+        odict.update({k: v for k, v in (st["like"]["ab"] or [])})
+        if fault == "bad-ab-key":
+            odict["focus"] = 1.0
+        over_ab = odict
+    kw = dict(bf_mask=mask, b=st["like"]["b"], override_aberration_coefs=over_ab, override_rotation_angle=st["like"]["rot"])
+    n = len(rows)
+    undo = []
+    if fault == "unknown-kernel":
+        sc = dict(sc, alias="no-such-kernel")
+    elif fault == "eps-none":
+        sc = dict(sc, eps=None)
+    elif fault == "batch-zero":
+        kw["b"] = 0
+    elif fault == "mask-shape":
+        kw["bf_mask"] = torch.zeros((gpts[0] + 1, gpts[1]), dtype=torch.bool)
+    elif fault == "mask-not-sub":
+        # the step's pixels plus one detector pixel outside the construction mask, streamed one pixel at a time
+        outside = torch.nonzero(~dp.bf_mask)
+        if len(outside) == 0:
+            fault = "unknown-kernel"
+            sc = dict(sc, alias="no-such-kernel")
+        else:
+            mm = torch.zeros_like(dp.bf_mask)
+            ii, jj = torch.nonzero(dp.bf_mask, as_tuple=True)
+            for s_ in rows:
+                mm[ii[s_], jj[s_]] = True
+            o_ = outside[st["k"] % len(outside)]
+            mm[o_[0], o_[1]] = True
+            kw.update(bf_mask=mm, b=1)
+    elif fault in ("kernel-call-fault", "ifft-fault"):
+        exc = {"RuntimeError": RuntimeError, "MemoryError": MemoryError, "KeyboardInterrupt": InjectedInterrupt}[st["exc"]]
+        kw["b"] = 1 if n > 1 else kw["b"]
+        at = 2 + st["k"] % max(1, n - 1) if n > 1 else 1        # raise on the at-th call (after at-1 batches went through)
+        cnt = [0]
+        if fault == "kernel-call-fault":
+            orig = type(dp)._return_kernel_contributions.__get__(dp)
+
+            def wrap(*a):
+                cnt[0] += 1
+                if cnt[0] == at:
+                    raise exc("injected fault in a callee")
+                return orig(*a)
+            dp._return_kernel_contributions = wrap
+            undo.append(lambda: dp.__dict__.pop("_return_kernel_contributions", None))
+        else:
+            real_ifft2 = torch.fft.ifft2
+
+            def ifft2(*a, **k):
+                cnt[0] += 1
+                if cnt[0] == at:
+                    raise exc("injected fault in a callee")
+                return real_ifft2(*a, **k)
+            torch.fft.ifft2 = ifft2
+            undo.append(lambda: setattr(torch.fft, "ifft2", real_ifft2))
+    raised = "no-exception"
+    try:
+        recon(dp, sc, **kw)
+    except (Exception, InjectedInterrupt) as e:  # noqa
+        raised = type(e).__name__
+    finally:
+        for u_ in undo:
+            u_()
+    ctx.count()
+    ctx.dist[f"history-bad-call:{fault}:{raised}"] += 1
+    real_state = {"initial_ab": bits(state.initial_aberrations), "optimized_ab": bits(state.optimized_aberrations),
+                  "initial_rot": fb(state.initial_rotation_angle), "optimized_rot": fb(state.optimized_rotation_angle)}
+    if m["state"] != real_state:
+        ctx.disagree("hyperparameter-state", dict(hc, step=t), m["state"], real_state,
+                     note=f"step {t}: a call that raised ({fault}: {raised}) changed the stored hyper-parameters")
+
+
 def run_histories(ctx, drv, rng):
-    for idx in range(ctx.n(12, 60)):
+    for idx in range(ctx.n(36, 160)):
         hc = gen_history(rng.fork(idx), idx)
         guarded(ctx, hc, run_history, ctx, drv, hc)
 
@@ -1420,7 +1656,7 @@ def run_repr_case(ctx, rc):
 
 
 def run_repr_cases(ctx, rng):
-    for idx in range(ctx.n(10, 50)):
+    for idx in range(ctx.n(24, 80)):
         rc = gen_repr_case(rng.fork(idx), idx)
         guarded(ctx, rc, run_repr_case, ctx, rc["repr_case"])
 
@@ -1468,6 +1704,39 @@ def run_aliases(ctx, drv, rng):
 
 
 # ---------------------------------------------------------------------------------------
+# defaults of the public entry point (tie, not a predicate: the property does not state them)
+
+PINNED_DEFAULTS = dict(bf_mask=None, override_aberration_coefs=None, upsampling_factor=None, override_rotation_angle=None,
+                       max_batch_size=None, deconvolution_kernel="single-sideband", q_highpass=None, q_lowpass=None,
+                       butterworth_order=12, matched_filter_norm_epsilon=1e-1, parallax_flip_phase=True, use_initial_state=False)
+
+
+def run_defaults(ctx, rng):
+    """`reconstruct()` with an argument left out must behave as with the default the model assumes for it (behavioural: a
+    refactored signature that keeps the behaviour stays silent)"""
+    case = gen_case(rng.fork(4242), 0)
+    case.update({"crop": False, "sub": None, "ab": {"C10": case["ab"].get("C10", 300.0)}, "u": 1})
+    r, c = case["scan"]
+    stack = gen_stack(7, len(case["pix"]), r, c, "dyadic")
+    dp = make_dp(case, stack)
+    for kern in KERNELS:
+        for left_out in PINNED_DEFAULTS:
+            if left_out == "deconvolution_kernel" and kern != "ssb":
+                continue
+            full = dict(PINNED_DEFAULTS, deconvolution_kernel=kern, verbose=False)
+            dp.reconstruct(**full)
+            a = dp.corrected_stack.detach().double().numpy().copy()
+            part = {k: v for k, v in full.items() if k != left_out}
+            dp.reconstruct(**part)
+            b = dp.corrected_stack.detach().double().numpy().copy()
+            ctx.count()
+            ctx.dist["defaults:left-out-arguments"] += 1
+            if a.shape != b.shape or not np.array_equal(a, b):
+                ctx.disagree("defaults", {"defaults_case": True, "kernel": kern, "left_out": left_out}, {"default": PINNED_DEFAULTS[left_out]},
+                             summarize(b), note=f"reconstruct() without `{left_out}` differs from `{left_out}={PINNED_DEFAULTS[left_out]!r}`")
+
+
+# ---------------------------------------------------------------------------------------
 
 def guarded(ctx, case, fn, *args):
     """an exception raised while the real code processes a valid input is a failure of the property on that input
@@ -1496,8 +1765,9 @@ def run(ctx):
     drv = Driver("C04")
     try:
         run_aliases(ctx, drv, ctx.rng.fork(999))
+        guarded(ctx, {"defaults_case": True}, run_defaults, ctx, ctx.rng.fork(995))
         run_crop_cases(ctx, ctx.rng.fork(998))
-        nprob = ctx.n(25, 250)
+        nprob = ctx.n(60, 400)
         for idx in range(nprob):
             rng = ctx.rng.fork(idx)
             case = gen_case(rng, idx)
@@ -1519,6 +1789,8 @@ def replay(ctx, rep):
     try:
         if "alias_name" in case or "name" in case:
             run_aliases(ctx, drv, _rng(0))
+        elif "defaults_case" in case:
+            run_defaults(ctx, _rng(0).fork(995))
         elif "crop_case" in case:
             run_crop_case(ctx, case["crop_case"])
         elif "repr_case" in case:
